@@ -342,10 +342,45 @@ pub fn fan_out(cx: &mut Ctx, prop: &str, owns: Owns, columns: u32, lines: u32, s
         }
         let evs = sys.take_events();
         let judged = judge_events(cx, prop, owns, pre, &evs, path, &mk_case);
+        let ok = r.is_ok();
         if let Err(p) = r {
             report_panic(cx, prop, owns, pre, &evs, &p, &mk_case);
         } else if judged == 0 && path == Path::Parser {
             cx.stats.count("parser_candidates_without_owned_event", 1);
+        }
+        // parser path: the calls the check owns must be the ones the documented grammar defines
+        // for the text that was fed (operation, parameters, private flag) - the per-call judgement
+        // above cannot see a wrong parameter list, it only sees what was delivered
+        if ok && path == Path::Parser && cand.ops.iter().all(|o| matches!(o, Op::Feed(_))) {
+            let mut rp = crate::refparser::RefParser::new(true);
+            for o in &cand.ops {
+                if let Op::Feed(t) = o {
+                    rp.feed(t);
+                }
+            }
+            if rp.out.iter().all(|e| matches!(e, crate::refparser::Exp::Ev(_))) {
+                let keep = |c: &Call| !matches!(c, Call::Draw(_)) && owns(c, pre) == Own::Full;
+                let want: Vec<Call> = rp
+                    .out
+                    .iter()
+                    .filter_map(|e| if let crate::refparser::Exp::Ev(c) = e { Some(c) } else { None })
+                    .filter(|c| keep(c))
+                    .filter_map(|c| crate::refparser::norm_call(c))
+                    .collect();
+                let got: Vec<Call> = evs.iter().map(|e| &e.call).filter(|c| keep(c)).filter_map(|c| crate::refparser::norm_call(c)).collect();
+                cx.stats.clause("dispatch-compared");
+                if want != got {
+                    let kind = want.first().or(got.first()).map(|c| c.kind()).unwrap_or("feed");
+                    cx.violation(Viol {
+                        prop: prop.to_string(),
+                        clause: "dispatch".into(),
+                        op: kind.to_string(),
+                        bucket: format!("n{}", cand.ops.len().min(3)),
+                        detail: format!("fed {:?}: the grammar defines the calls {:?}, the listener received {:?}", cand.ops, want, got),
+                        case: mk_case(),
+                    });
+                }
+            }
         }
     }
 }
@@ -404,5 +439,39 @@ pub fn replay_step(cx: &mut Ctx, prop: &str, owns: Owns, case: &Case) {
     }
     if cx.verbose {
         println!("state after the judged ops:\n{}", snapshot(&s2.t().scr).render());
+    }
+}
+
+/// Judge every listener call (owned by the check) of a whole history executed on one Screen with
+/// one parser: states are the ones long realistic histories reach, and sequences inside a single
+/// feed() are observed call by call.
+pub fn judge_session(cx: &mut Ctx, prop: &str, owns: Owns, columns: u32, lines: u32, ops: &[Op]) {
+    let mut sys = Sys::new(columns, lines, PK::Bytes);
+    cx.stats.geoms.insert(format!("{}x{}", columns, lines));
+    let mut pre = sys.snap();
+    for (i, op) in ops.iter().enumerate() {
+        let mk_case = || {
+            let mut c = Case::new(prop, "session", columns, lines, PK::Bytes);
+            c.ops = ops[..=i].to_vec();
+            c
+        };
+        cx.journal_case(&mk_case);
+        let r = sys.try_apply(op);
+        let evs = sys.take_events();
+        // only the last op of a replayed prefix is new; earlier ones were judged before - but a
+        // replay judges everything again, which is harmless (same verdicts)
+        judge_events(cx, prop, owns, &pre, &evs, Path::Parser, &mk_case);
+        cx.stats.count("session_ops", 1);
+        if let Err(p) = r {
+            report_panic(cx, prop, owns, &pre, &evs, &p, &mk_case);
+            return;
+        }
+        pre = match evs.iter().rev().filter_map(|e| e.post.clone()).next() {
+            Some(s) => s,
+            None => sys.snap(),
+        };
+        if matches!(op, Op::ClearDirty) {
+            pre = sys.snap();
+        }
     }
 }
